@@ -1413,6 +1413,25 @@ class Server:
         connection.response(code, info)
         return True
 
+    async def _open_passive_listener(self, connection, handler_callback, port):
+        # Bind first and start serving in a second step, so that a cancellation
+        # (session torn down while the listener is being opened) can never leave
+        # a bound listener behind that nobody holds a reference to.
+        kwargs = dict(self._start_server_extra_arguments, start_serving=False)
+        passive_server = await asyncio.start_server(
+            handler_callback,
+            connection.server_host,
+            port,
+            ssl=self.ssl,
+            **kwargs,
+        )
+        try:
+            await passive_server.start_serving()
+        except BaseException:
+            passive_server.close()
+            raise
+        return passive_server
+
     async def _start_passive_server(self, connection, handler_callback):
         if self.available_data_ports is not None:
             viewed_ports = set()
@@ -1422,12 +1441,10 @@ class Server:
                     if port in viewed_ports:
                         raise errors.NoAvailablePort
                     viewed_ports.add(port)
-                    passive_server = await asyncio.start_server(
+                    passive_server = await self._open_passive_listener(
+                        connection,
                         handler_callback,
-                        connection.server_host,
                         port,
-                        ssl=self.ssl,
-                        **self._start_server_extra_arguments,
                     )
                     connection.passive_server_port = port
                     break
@@ -1437,13 +1454,14 @@ class Server:
                     self.available_data_ports.put_nowait((priority + 1, port))
                     if err.errno != errno.EADDRINUSE:
                         raise
+                except asyncio.CancelledError:
+                    self.available_data_ports.put_nowait((priority, port))
+                    raise
         else:
-            passive_server = await asyncio.start_server(
+            passive_server = await self._open_passive_listener(
+                connection,
                 handler_callback,
-                connection.server_host,
                 connection.passive_server_port,
-                ssl=self.ssl,
-                **self._start_server_extra_arguments,
             )
         return passive_server
 
